@@ -3,6 +3,7 @@ independent oracles written from the property statements.  Labelled bounded; nev
 import itertools
 import logging
 import random
+import warnings
 
 from bounded.lang import ref_parse, ref_eval, Reject, rand_expr, spec_tokens
 
@@ -196,6 +197,12 @@ def c03(tier='quick', seed=0):
                 sb = Sandbox()
                 try:
                     sb.mkdir('d1')
+                    # what a policy directory does not contribute: dot-files and sub-directories (here they would define
+                    # every name, the default rules included, permissively)
+                    everything = {'a': '@', 'b': '@', 'default': '@', 'zzz': '@', 'other': '@'}
+                    sb.write('d1/.hidden.yaml', everything)
+                    sb.write('d1/.r.yaml.swp', everything)
+                    sb.write('d1/sub/x.yaml', everything)
                     if layout == 'main':
                         sb.write('policy.yaml', rules_text)
                     elif layout == 'main+dir':
@@ -459,11 +466,27 @@ def c07(tier='quick', seed=0):
                                                     name, dr, exc and exc.__name__, args, kwargs, got_e, want_e)
                                             R.case((debug, name, tuple(roles), ti, 'authorize-forms', dr, exc is not None,
                                                     len(args), len(kwargs)), bad)
+                            # do_raise off never raises, whatever exception class and arguments the caller passed along;
+                            # the same through authorize when the name is registered
+                            if name != 'missing':
+                                e3 = mk_enforcer(rules=policy.Rules.from_dict(rules_text))
+                                with warnings.catch_warnings():
+                                    warnings.simplefilter('ignore')
+                                    for n3, t3 in rules_text.items():
+                                        e3.register_default(policy.RuleDefault(n3, t3))
+                                rule3 = e3.rules[name] if as_check else name
+                                for exc, args, kwargs in ((MyExc, (), {}), (MyExc, ('a1', 2), {'kw': 'v'})):
+                                    for ename, entry in [('enforce', e3.enforce)] + ([] if as_check else [('authorize', e3.authorize)]):
+                                        g3 = outcome(entry, rule3, target, dict(creds), False, exc, *args, **kwargs)
+                                        bad = None
+                                        if g3[0] != 'ret' or bool(g3[1]) != allowed:
+                                            bad = ('%s(%r, ..., do_raise=False, exc=MyExc, *%r, **%r) gave %r; with do_raise off the '
+                                                   'decision %r is returned' % (ename, name, args, kwargs, g3[:2], allowed))
+                                        R.case((debug, name, tuple(roles), ti, as_check, 'no-raise-with-exc', ename, len(args)), bad)
                             if R.full:
                                 return R.d
         # scope handling is part of enforce(): with enforcement off (and on) the two do_raise modes agree, through
         # enforce and through authorize, for a name and for a check object carrying scope types
-        import warnings
         for enforce_scope in (False, True):
             for allow in (True, False):
                 for token in ({'project_id': 'p1'}, {'domain_id': 'd1'}, {'system_scope': 'all'}):
@@ -566,7 +589,6 @@ def c08(tier='quick', seed=0):
                                             want = ('ret', True)
                                         else:
                                             want = ('exc', 'PolicyNotAuthorized') if do_raise else ('ret', False)
-                                        import warnings
                                         with warnings.catch_warnings():
                                             warnings.simplefilter('ignore')
                                             got = outcome(e.enforce, rule, {}, creds, do_raise)
@@ -581,9 +603,31 @@ def c08(tier='quick', seed=0):
                                                 override, as_check, rep), bad)
                                         if R.full:
                                             return R.d
+                                        if rep == 'dict' and not override:
+                                            # the same row with a caller-supplied exception class (and, for names, through
+                                            # authorize): a scope mismatch still raises InvalidScope under do_raise, a
+                                            # plain denial raises the caller's class
+                                            class CallerExc(Exception):
+                                                pass
+                                            want2 = want if want != ('exc', 'PolicyNotAuthorized') else ('exc', 'CallerExc')
+                                            entries = [('enforce', e.enforce)] + ([] if as_check else [('authorize', e.authorize)])
+                                            for ename, entry in entries:
+                                                with warnings.catch_warnings():
+                                                    warnings.simplefilter('ignore')
+                                                    got2 = outcome(entry, rule, {}, creds, do_raise, CallerExc, 'arg1')
+                                                g2 = (got2[0], bool(got2[1]) if got2[0] == 'ret' else got2[1])
+                                                bad2 = None
+                                                if g2 != want2:
+                                                    bad2 = ('scope_types=%r creds(%s)=%s/%s/%s enforce_scope=%s do_raise=%s allow=%s '
+                                                            'as_check=%s, %s with a caller-supplied exception class: got %r expected %r' % (
+                                                                st, spelling, sysv, dom, proj, enforce_scope, do_raise, allow,
+                                                                as_check, ename, g2, want2))
+                                                R.case((tuple(st or ()), sysv, dom, proj, spelling, enforce_scope, do_raise, allow,
+                                                        as_check, 'exc-class', ename), bad2)
+                                            if R.full:
+                                                return R.d
     # the option is read when the decision is taken: flipping it on a long-lived enforcer (one that reads its rules from
     # configuration files, one that was given its rules through set_rules, one built with use_conf=False) takes effect
-    import warnings
     for how in ('conf', 'set_rules', 'no_conf'):
         for first in (True, False):
             for allow in (True, False):
@@ -670,6 +714,35 @@ def c14(tier='quick', seed=0):
                     bad = 'rule %r with creds %s target %s (debug logging %s) raised %s: %s' % (
                         body, safe(creds), safe(target), 'on' if debug else 'off', got[1], got[2])
                 R.case((body, safe(creds), safe(target), do_raise, debug), bad, sample={'rule': body, 'creds': safe(creds)})
+                # the other entry point and the other calling forms: authorize of a registered / unregistered name, and a
+                # caller-supplied exception class with positional and keyword arguments for it
+                if it % 2 == 0:
+                    class MyExc(Exception):
+                        def __init__(self, *a, **k):
+                            super().__init__(*a)
+                    if 'p' not in e.registered_rules:
+                        import warnings as _w
+                        with _w.catch_warnings():
+                            _w.simplefilter('ignore')
+                            e.register_default(policy.RuleDefault('p', body))
+                    forms = [('enforce', e.enforce, 'p', (do_raise, MyExc, 'a1', 403), {}),
+                             ('enforce', e.enforce, 'p', (do_raise, MyExc), {'code': 403}),
+                             ('authorize', e.authorize, 'p', (do_raise,), {}),
+                             ('authorize', e.authorize, 'p', (do_raise, MyExc, 'a1', 403), {}),
+                             ('authorize', e.authorize, 'p', (do_raise, MyExc), {'code': 403}),
+                             ('authorize', e.authorize, 'nope', (do_raise, MyExc, 'a1'), {})]
+                    for ename, entry, nm, pos, kws in forms:
+                        g2 = outcome(entry, nm, target, dict(creds), *pos, **kws)
+                        bad2 = None
+                        if g2[0] == 'exc' and g2[1] not in documented:
+                            bad2 = '%s(%r, ..., %s%s) of rule %r with creds %s target %s raised %s: %s' % (
+                                ename, nm, ', '.join(getattr(x, '__name__', repr(x)) for x in pos),
+                                ''.join(', %s=%r' % kv for kv in kws.items()), body, safe(creds), safe(target), g2[1], g2[2])
+                        elif nm == 'nope' and g2[:2] != ('exc', 'PolicyNotRegistered'):
+                            bad2 = 'authorize of an unregistered name gave %r' % (g2[:2],)
+                        elif nm == 'p' and got[0] == 'ret' and g2[0] == 'ret' and bool(g2[1]) != bool(got[1]):
+                            bad2 = '%s with exception arguments decided %r where enforce decided %r (rule %r)' % (ename, g2[1], got[1], body)
+                        R.case((body, safe(creds), safe(target), do_raise, ename, nm, len(pos), tuple(kws)), bad2)
         finally:
             if debug:
                 logging.disable(logging.CRITICAL)
